@@ -33,6 +33,7 @@ def check(c: Check):
     clause_d(c)
     clause_e(c)
     clause_f(c)
+    clause_g(c)
     from .common import sweep_records
     sweep_records(c, 'C16-rec', ['exactly_lib.test_suite'], floor=8)
 
@@ -564,3 +565,173 @@ def clause_f(c: Check):
         if not (isinstance(d, External) and d.dotted == 'builtins.sorted' and not r.keywords):
             ok = False
     c.expect(ok, 'C16-f', 'glob/sorted', 'glob matches are not returned sorted', g.loc())
+
+
+# ---------------------------------------------------------------- g
+def _maybe_none_fields(ix: Index, modules) -> dict:
+    """{(class, constructor parameter): reason} for parameters of the classes in `modules` that may be given None:
+    annotated Optional, given the literal None at a construction site, or given an element of a dict kept in an
+    attribute that is initialised / assigned with a None value"""
+    out = {}
+    for m in modules:
+        for k in m.all_classes:
+            init = k.methods.get('__init__')
+            if init is None:
+                continue
+            for p in init.positional_params()[1:]:
+                if p.annotation is not None and 'Optional' in unparse(p.annotation):
+                    out[(k, p.arg)] = 'annotated Optional'
+            for s in util.call_sites_of(ix, k):
+                b = util.ctor_call_args(ix, k, s.node) or {}
+                for pn, a in b.items():
+                    if isinstance(a, ast.Constant) and a.value is None:
+                        out.setdefault((k, pn), 'given None at %s' % s.where)
+                    v = a
+                    if isinstance(v, ast.Call) and isinstance(v.func, ast.Attribute) and v.func.attr == 'get':
+                        v = v.func.value
+                        out.setdefault((k, pn), 'result of .get() at %s' % s.where)
+                        continue
+                    if isinstance(v, ast.Subscript):
+                        v = v.value
+                        if isinstance(v, ast.Attribute) and isinstance(v.value, ast.Name) and s.func is not None:
+                            owner = s.func
+                            while owner is not None and owner.cls is None:
+                                owner = owner.parent
+                            cls = owner.cls if owner is not None else None
+                            if cls is not None and _dict_attr_may_hold_none(cls, v.attr):
+                                out.setdefault((k, pn), 'element of self.%s, which holds None values (%s)' % (v.attr, s.where))
+    return out
+
+
+def _dict_attr_may_hold_none(cls: ClassDef, attr: str) -> bool:
+    for f in cls.methods.values():
+        for n in ast.walk(f.node):
+            if isinstance(n, ast.Assign):
+                for t in n.targets:
+                    if isinstance(t, ast.Attribute) and t.attr == attr and isinstance(n.value, ast.Dict) \
+                            and any(isinstance(v, ast.Constant) and v.value is None for v in n.value.values):
+                        return True
+                    if isinstance(t, ast.Subscript) and isinstance(t.value, ast.Attribute) and t.value.attr == attr \
+                            and isinstance(n.value, ast.Constant) and n.value.value is None:
+                        return True
+    return False
+
+
+def _non_null_polarity(test, target: str) -> int:
+    """+1: the test being true implies <target> is not None; -1: the test being false implies it; 0: neither"""
+    if isinstance(test, ast.UnaryOp) and isinstance(test.op, ast.Not):
+        return -_non_null_polarity(test.operand, target)
+    if unparse(test) == target:
+        return 1
+    if isinstance(test, ast.Compare) and len(test.ops) == 1:
+        l, r = test.left, test.comparators[0]
+        sides = [unparse(l), unparse(r)]
+        if target in sides and 'None' in sides:
+            if isinstance(test.ops[0], (ast.IsNot, ast.NotEq)):
+                return 1
+            if isinstance(test.ops[0], (ast.Is, ast.Eq)):
+                return -1
+    if isinstance(test, ast.BoolOp) and isinstance(test.op, ast.And):
+        return 1 if any(_non_null_polarity(v, target) == 1 for v in test.values) else 0
+    if isinstance(test, ast.BoolOp) and isinstance(test.op, ast.Or):
+        return -1 if any(_non_null_polarity(v, target) == -1 for v in test.values) else 0
+    return 0
+
+
+def _unguarded_derefs(ix: Index, m, fields: dict):
+    """[(function, node, class, field)] where `<x>.<field>.<something>` is evaluated for a parameter x annotated with
+    the class, outside a test that the field is not None / true"""
+    from ..core import ancestors
+    out = []
+    by_name = {}
+    for (k, pn), why in fields.items():
+        by_name.setdefault(pn, []).append(k)
+    for f in m.all_funcs:
+        ptypes = {}
+        for p in f.params:
+            k = ix.annotation_class(f.module, f.parent, p.annotation) if p.annotation is not None else None
+            if k is not None:
+                ptypes[p.arg] = k
+        if not ptypes:
+            continue
+        for n in walk_own(f.node):
+            if not (isinstance(n, ast.Attribute) and isinstance(n.value, ast.Attribute) and isinstance(n.value.value, ast.Name)):
+                continue
+            x, field = n.value.value.id, n.value.attr
+            k = ptypes.get(x)
+            if k is None or field not in by_name:
+                continue
+            if not any(kk in ix.mro(k) for kk in by_name[field]):
+                continue
+            target = unparse(n.value)
+            guarded = False
+            prev = n
+            for a in ancestors(n):
+                if a is f.node:
+                    break
+                if isinstance(a, (ast.If, ast.IfExp)):
+                    in_body = (prev in a.body) if isinstance(a, ast.If) else (prev is a.body)
+                    in_else = (prev in a.orelse) if isinstance(a, ast.If) else (prev is a.orelse)
+                    pol = _non_null_polarity(a.test, target)
+                    if (pol == 1 and in_body) or (pol == -1 and in_else):
+                        guarded = True
+                if isinstance(a, ast.BoolOp) and isinstance(a.op, ast.And):
+                    idx = a.values.index(prev) if prev in a.values else -1
+                    if any(_non_null_polarity(v, target) == 1 for v in a.values[:max(idx, 0)]):
+                        guarded = True
+                if isinstance(a, ast.BoolOp) and isinstance(a.op, ast.Or):
+                    idx = a.values.index(prev) if prev in a.values else -1
+                    if any(_non_null_polarity(v, target) == -1 for v in a.values[:max(idx, 0)]):
+                        guarded = True
+                prev = a
+            if not guarded:
+                # an earlier `if <field> is None: return / raise` in the function body
+                for stmt in f.node.body:
+                    if stmt.lineno >= n.lineno:
+                        break
+                    if isinstance(stmt, ast.If) and _non_null_polarity(stmt.test, target) == -1 \
+                            and stmt.body and isinstance(stmt.body[-1], (ast.Return, ast.Raise)):
+                        guarded = True
+            if not guarded:
+                out.append((f, n, k, field))
+    return out
+
+
+def clause_g(c: Check):
+    """NULL: a suite that cannot be read is INVALID_SUITE (exit 3) - the report of the read error must not itself
+    fail. A field of a suite read error that may be None (annotated Optional, given None, or taken from a table that
+    holds None - `first_referenced_from` of a double inclusion is None when the root suite is reached again) is not
+    dereferenced in `exactly_lib.test_suite` outside a test that it is not None: the AttributeError would replace the
+    INVALID_SUITE report by a traceback and exit code 1"""
+    ix = c.ix
+    exm = ix.module('exactly_lib.test_suite.file_reading.exception')
+    fields = _maybe_none_fields(ix, [exm])
+    c.floor('C16-g', 'fields of suite read errors that may be None', len(fields), 1)
+    n_mod = 0
+    for name in ix.all_module_names():
+        if not name.startswith('exactly_lib.test_suite'):
+            continue
+        if not any(pn in ix.text(name) for (_, pn) in fields):
+            continue
+        n_mod += 1
+        m = ix.module(name)
+        for f, n, k, field in _unguarded_derefs(ix, m, fields):
+            why = [w for (kk, pn), w in fields.items() if pn == field][0]
+            c.bad('C16-g', 'unguarded-dereference/%s/%s.%s' % (f.key, k.name, field),
+                  '%s is evaluated although %s.%s may be None (%s): reporting the error raises AttributeError - a '
+                  'traceback and exit code 1 instead of INVALID_SUITE / 3' % (unparse(n)[:60], k.name, field, why),
+                  '%s:%d' % (m.relpath, n.lineno))
+    for (k, pn), why in sorted(fields.items(), key=lambda kv: (kv[0][0].key, kv[0][1])):
+        c.ok('C16-g', 'may-be-none/%s.%s' % (k.name, pn), detail=why)
+    # positive control
+    import os
+    from ..report import VERIF_ROOT
+    fx = Index(os.path.join(VERIF_ROOT, 'fixtures', 'nullness'))
+    fm = fx.module('exactly_lib.test_suite.fixture_errors')
+    ff = _maybe_none_fields(fx, [fm])
+    got = _unguarded_derefs(fx, fm, ff)
+    want = sum(1 for line in fm.src.splitlines() if '# EXPECT deref' in line)
+    names = sorted(pn for (_, pn) in ff)
+    if names != ['first_seen_in', 'maybe'] or len(got) != want:
+        raise AnalysisError('C16-g: positive control failed: may-be-None fields %s, %d unguarded dereferences reported, '
+                            'expected %d' % (names, len(got), want))
